@@ -15,6 +15,11 @@ CHECKS = {
          "Held on the executions observed: all 20 linter commands x 3 formats over trigger projects with zero/one/many violations, hostile names and messages, and 14 usage-error classes; evidence lists commands, record counts and classes seen.",
          "Trusted: the extractors in vlib/oracles/formats.py; text form path[:line][:column]; text not judged when a path or message contains a newline; group-level --config (application config, documented fallback to defaults) is not treated as a usage error.",
          "DESIGN.md section 4 C06"),
+
+ "C07": ("runtime monitoring: sequential-vs-parallel result histories at the library and CLI boundary; schedule controller forcing seeded completion orders of the worker futures (natural orders recorded); exactly-once dispatch monitor fed by events from the forked pool workers",
+         "Held on the executions observed: worker counts 1..16, file counts on both sides of the 2 x workers fallback threshold, forced and natural completion orders, per-file and cross-file rules, invalid-configuration variant; evidence lists orders, pids and dispatch events seen.",
+         "Trusted: the sequential run as specification; fork start method (wrappers inherited by workers); completion orders are permuted in the parent after all futures finished.",
+         "DESIGN.md section 4 C07"),
 }
 PENDING = {}
 props = [json.loads(l) for l in open(os.path.join(HERE, "properties.jsonl"))]
